@@ -23,6 +23,8 @@ const P2: u128 = primes::U64_LARGEST;
 struct Fix {
     n: usize,
     real: WmcParams<RealSemiring>,
+    /// a second weight table of the same semiring (a stale per-node memo of the first shows)
+    real2: WmcParams<RealSemiring>,
     ff1: WmcParams<FiniteField<P1>>,
     ff2: WmcParams<FiniteField<P2>>,
     eu: WmcParams<ExpectedUtility>,
@@ -35,6 +37,7 @@ fn fixtures(n: usize) -> Fix {
     Fix {
         n,
         real: WmcParams::new((0..n).map(|v| (VarLabel::new(v as u64), (RealSemiring(wr[v].0), RealSemiring(wr[v].1)))).collect::<HashMap<_, _>>()),
+        real2: WmcParams::new((0..n).map(|v| (VarLabel::new(v as u64), (RealSemiring(wr[(v + 2) % 5].1), RealSemiring(wr[(v + 2) % 5].0)))).collect::<HashMap<_, _>>()),
         ff1: WmcParams::new((0..n).map(|v| (VarLabel::new(v as u64), (FiniteField::new(3 + v as u128), FiniteField::new(P1 - 2 - v as u128)))).collect::<HashMap<_, _>>()),
         ff2: WmcParams::new((0..n).map(|v| (VarLabel::new(v as u64), (FiniteField::new(5 + v as u128), FiniteField::new(P2 - 4 - v as u128)))).collect::<HashMap<_, _>>()),
         eu: WmcParams::new((0..n).map(|v| (VarLabel::new(v as u64), (ExpectedUtility(0.5, 0.0), ExpectedUtility(0.5, v as f64)))).collect::<HashMap<_, _>>()),
@@ -51,6 +54,8 @@ pub enum Q {
     CondModel(usize),
     /// smooth to a width below the number of variables (the full width is Fixed(11))
     Smooth(usize),
+    /// wmc<Real> under the second weight table
+    Wmc2,
 }
 
 const FIXED: [&str; 13] = [
@@ -73,6 +78,7 @@ pub fn bdd_queries(n: usize) -> Vec<(String, Q)> {
     for k in 1..n {
         v.push((format!("smooth(width {})", k), Q::Smooth(k)));
     }
+    v.push(("wmc<Real> (second weight table)".to_string(), Q::Wmc2));
     v
 }
 
@@ -146,6 +152,7 @@ fn bdd_query<'a>(b: &'a AllBuilder<'a>, p: BddPtr<'a>, q: &Q, fx: &Fix) -> Resul
             format!("{:?}/{:?} {:?}", v.0.to_bits(), v.1.to_bits(), m)
         }
         Q::Smooth(k) => digest_bdd(b.smooth(p, *k), n),
+        Q::Wmc2 => format!("{:?}", p.unsmoothed_wmc(&fx.real2).0.to_bits()),
         Q::Cond(x, val) => digest_bdd(b.condition(p, VarLabel::new(*x as u64), *val), n),
         Q::Exists(x) => digest_bdd(b.exists(p, VarLabel::new(*x as u64)), n),
         Q::CondModel(m) => {
@@ -243,7 +250,7 @@ fn explore_bdd(f: TT, g: TT, n: usize, order: &[usize], depth: usize, kind: u8, 
 
 // ---- SDD and top-down pools (smaller alphabets) ------------------------------------------------
 
-pub const SDD_QUERIES: [&str; 8] = ["wmc<Real>", "wmc<FF64>", "evaluate", "count_nodes", "semantic_hash<FF32>", "cached_semantic_hash<FF64>", "condition", "exists"];
+pub const SDD_QUERIES: [&str; 9] = ["wmc<Real>", "wmc<FF64>", "evaluate", "count_nodes", "semantic_hash<FF32>", "cached_semantic_hash<FF64>", "condition", "exists", "wmc<Real> (second weight table)"];
 
 fn sdd_build<'a>(b: &'a CompressionSddBuilder<'a>, t: TT, v: usize, n: usize) -> SddPtr<'a> {
     if t == 0 {
@@ -287,7 +294,8 @@ fn sdd_query<'a>(b: &'a CompressionSddBuilder<'a>, p: SddPtr<'a>, q: usize, fx: 
         4 => format!("{}", p.semantic_hash(&fx.hmap1).value()),
         5 => format!("{}", p.cached_semantic_hash(b.vtree_manager(), &fx.hmap).value()),
         6 => sdd_canon(b.condition(p, VarLabel::new(1 % n as u64), false)),
-        _ => sdd_canon(b.exists(p, VarLabel::new(0))),
+        7 => sdd_canon(b.exists(p, VarLabel::new(0))),
+        _ => format!("{:?}", p.unsmoothed_wmc(&fx.real2).0.to_bits()),
     })
 }
 
@@ -349,6 +357,7 @@ pub fn td_queries(n: usize) -> Vec<(String, Q)> {
         v.push((format!("condition(x{}=true)", x), Q::Cond(x, true)));
         v.push((format!("condition(x{}=false)", x), Q::Cond(x, false)));
     }
+    v.push(("wmc<Real> (second weight table)".to_string(), Q::Wmc2));
     v
 }
 
@@ -371,6 +380,7 @@ fn td_query<'a>(b: &'a StandardDecisionNNFBuilder<'a>, p: BddPtr<'a>, q: &Q, fx:
         Q::Fixed(4) => format!("{}", p.semantic_hash(&fx.hmap1).value()),
         Q::Fixed(_) => format!("{}", p.cached_semantic_hash(b.order(), &fx.hmap).value()),
         Q::Cond(x, val) => digest_bdd(b.condition(p, VarLabel::new(*x as u64), *val), n),
+        Q::Wmc2 => format!("{:?}", p.unsmoothed_wmc(&fx.real2).0.to_bits()),
         _ => String::new(),
     })
 }
